@@ -85,11 +85,15 @@ func (a *c16Agent) Tick() bool {
 				r.expect = make([]byte, r.n)
 				copy(r.expect, a.flat[r.line][r.off:r.off+r.n])
 			} else {
-				m := memprotocol.WriteReq{Address: addr, Data: r.data}
+				m := memprotocol.WriteReq{Address: addr, Data: r.data, DirtyMask: r.mask}
 				m.ID, m.Src, m.Dst = r.id, a.port.AsRemote(), a.dst
 				m.TrafficBytes, m.TrafficClass = len(r.data)+12, "req"
 				a.port.Send(m)
-				copy(a.flat[r.line][r.off:r.off+r.n], r.data)
+				for k := 0; k < r.n; k++ {
+					if r.mask == nil || r.mask[k] {
+						a.flat[r.line][r.off+k] = r.data[k]
+					}
+				}
 			}
 			r.sent = true
 			a.next++
@@ -158,15 +162,26 @@ func VerifC16_Stack() {
 
 	n := 3
 	for i := 0; i < n; i++ {
-		kind := verifrt.Choice("kind", 3) // read, partial write, full-line write
+		kind := verifrt.Choice("kind", 4) // read, partial write, full-line write, masked line write
 		r := &c16wReq{id: timing.GetIDGenerator().Generate(), read: kind == 0}
 		if i > 0 {
 			r.line = verifrt.Choice("line", 3)
 		}
-		if kind == 2 {
+		if kind >= 2 {
 			r.off, r.n = 0, 64
 		} else {
 			r.off, r.n = 8, 4
+		}
+		r.rbOff = r.off
+		if kind < 2 {
+			r.rbOff = 8
+		}
+		if kind == 3 {
+			r.mask = make([]bool, 64)
+			for k := 8; k < 12; k++ {
+				r.mask[k] = true
+			}
+			r.rbOff = 16 // read back where the mask is false: the flat memory keeps its old bytes there
 		}
 		if !r.read {
 			r.data = make([]byte, r.n)
@@ -175,6 +190,10 @@ func VerifC16_Stack() {
 			}
 			r.data[0] = verifrt.Byte("data")
 			r.data[r.n-1] = verifrt.Byte("data")
+			if kind == 3 {
+				r.data[8] = verifrt.Byte("data")
+				r.data[16] = verifrt.Byte("data")
+			}
 		}
 		agent.reqs = append(agent.reqs, r)
 		agent.notBefore = append(agent.notBefore, 0)
@@ -193,7 +212,7 @@ func VerifC16_Stack() {
 		if w.read {
 			continue
 		}
-		agent.reqs = append(agent.reqs, &c16wReq{id: timing.GetIDGenerator().Generate(), read: true, line: w.line, off: w.off, n: 4})
+		agent.reqs = append(agent.reqs, &c16wReq{id: timing.GetIDGenerator().Generate(), read: true, line: w.line, off: w.rbOff, n: 4})
 		agent.notBefore = append(agent.notBefore, 0)
 		verifrt.Cover("read-back")
 	}
